@@ -7,7 +7,7 @@
    vector as its input; written in lowest terms ([canon]) that vector is THE SAME DATA for a sample sequenced k times deeper, so
    every function of it agrees (C07_structure_depth_independent; spelled out for CnSpec.solve_cn in C07_cn_stage_depth_independent).
    Not covered by that: _filter_configs, which uses the ABSOLUTE parameter min_coverage (DESIGN.md, C07), and double rounding. *)
-From Aldy Require Import Base Consts Norm NormProofs NormCanonProofs Exprs_norm Tied_norm.
+From Aldy Require Import Base Consts Norm NormProofs NormCanonProofs Exprs_norm Tied_norm NormClipProofs.
 From Aldy Require CnModel CnSpec.
 Open Scope Z_scope.
 
@@ -127,3 +127,23 @@ Theorem C07_tie_ratio : forall nv regions cn dg dn, range_sum dn (fst cn) (snd c
 Proof. exact norm_ratio_tied. Qed.
 Goal True. idtac "ASSUME C07_tie_ratio". Abort.
 Print Assumptions C07_tie_ratio.
+
+(* ================================================================= clipped records
+   Operations that neither count nor advance (S, H, I, P: every code outside M/=/X/D) do not influence the depth tables: a read
+   contributes the same positions with or without them, wherever they stand in its CIGAR - so a hard-clipped record in the neutral
+   region counts like any aligned read, for all read lists. *)
+Theorem C07_pileup_ignores_clips : forall reads, pileup (map strip_read reads) = pileup reads.
+Proof. exact pileup_strip. Qed.
+Goal True. idtac "ASSUME C07_pileup_ignores_clips". Abort.
+Print Assumptions C07_pileup_ignores_clips.
+
+Theorem C07_walk_same_counted : forall cg1 cg2 start, strip cg1 = strip cg2 -> walk start cg1 = walk start cg2.
+Proof. exact walk_same_counted. Qed.
+Goal True. idtac "ASSUME C07_walk_same_counted". Abort.
+Print Assumptions C07_walk_same_counted.
+
+Theorem C07_normalize_ignores_clips : forall nv regions cn rg rn,
+  normalize nv regions cn (pileup (map strip_read rg)) (pileup (map strip_read rn)) = normalize nv regions cn (pileup rg) (pileup rn).
+Proof. exact normalize_strip. Qed.
+Goal True. idtac "ASSUME C07_normalize_ignores_clips". Abort.
+Print Assumptions C07_normalize_ignores_clips.
